@@ -119,8 +119,10 @@ static MPT_STRUCT(buffer) *_mpt_buffer_map_detach(MPT_STRUCT(buffer) *ptr, size_
 	MPT_STRUCT(buffer) *next;
 	size_t old;
 	
+	/* private mutable data of sufficient size */
 	if (b->_ref._val == 1
-	 && !(b->_flags & MPT_ENUM(BufferImmutable))) {
+	 && !(b->_flags & MPT_ENUM(BufferImmutable))
+	 && len <= b->buf._size) {
 		return &b->buf;
 	}
 	/* only detach raw buffer */
